@@ -172,6 +172,10 @@ def _run(prog, chk):
     units = {"fast_tlv.c", "tlv.c", "tlv_element.c", "tlv_template.c", "types.c", "types_base.c", "hash.c", "hashchain.c", "signature.c",
              "signature_builder.c", "publicationsfile.c", "base32.c", "net.c", "log.c", "pkitruststore_openssl.c", "verification_rule.c", "policy.c"}
     ownership_obligations(prog, chk, "C12.owner", units)
+    from .C19 import absorbed_obligations, borrow_obligations
+    chk.rule("C12.borrow", "parsed objects: no borrowed object is stored into an owning field without taking a reference (two owners = use after free)", floor=100)
+    borrow_obligations(prog, chk, "C12.borrow", units)
+    absorbed_obligations(prog, chk, "C12.owner", units)
     for fn in sorted(prog.all_functions(), key=lambda f: (f.unit, f.line)):
         if fn.unit not in units:
             continue
